@@ -118,7 +118,7 @@ static void run_jobs(std::vector<Job>& jobs, std::ostream& os) {
 #include "io_mut.hh"
 
 // write faults: a sink that fails after `p` bytes must make ovmb_write return something other than Ok (C18)
-template<class M> static std::string wfault_one(const GenJob& g, uint64_t seed) {
+template<class M> static std::string wfault_one(const GenJob& g, uint64_t seed, bool thorough) {
     std::ostringstream os;
     vh::Rng r(vh::mix(vh::mix(seed, (uint64_t)g.kind), 1000 + g.idx));
     M m; build(m, g.kind, g.rc, r);
@@ -126,13 +126,18 @@ template<class M> static std::string wfault_one(const GenJob& g, uint64_t seed) 
     if (wres != "Ok") { os << "WF " << g.id << " -1 0 " << wres << " 0 0\n"; return os.str(); }
     std::set<size_t> ps;
     size_t n = full.size();
-    if (n <= 1200) for (size_t p = 0; p <= n; ++p) ps.insert(p);
+    // every ovmb_write allocates and zero-fills a 100 MB WriteBuffer (BinaryFileWriter's constructor): ~0.1 s per
+    // call under ASan, so the quick tier samples positions (all chunk boundaries of a subset of the chunks)
+    if (n <= (thorough ? 1200u : 100u)) for (size_t p = 0; p <= n; ++p) ps.insert(p);
     else {
         Layout L = parse_layout(full);
-        for (auto& c : L.chunks) for (long d = -2; d <= 18; ++d) { long p = (long)c.off + d; if (p >= 0 && (size_t)p <= n) ps.insert((size_t)p); }
-        for (size_t p = 0; p < 50; ++p) ps.insert(p);
-        for (size_t p = 0; p < n; p += (n / 60) + 1) ps.insert(p);
-        for (size_t p = n - 20; p <= n; ++p) ps.insert(p);
+        size_t maxc = thorough ? 1000000u : 5u;
+        size_t cstep = L.chunks.size() > maxc ? L.chunks.size() / maxc : 1; size_t ci = 0;
+        long dlo = thorough ? -2 : -1, dhi = thorough ? 18 : 17;
+        for (auto& c : L.chunks) if (ci++ % cstep == 0 || ci + 1 >= L.chunks.size()) for (long d = dlo; d <= dhi; d += (thorough || d < 1 || d > 14 ? 1 : 4)) { long p = (long)c.off + d; if (p >= 0 && (size_t)p <= n) ps.insert((size_t)p); }
+        for (size_t p = 0; p < (thorough ? 50u : 12u); ++p) ps.insert(p);
+        for (size_t p = 0; p < n; p += (n / (thorough ? 60 : 12)) + 1) ps.insert(p);
+        for (size_t p = n - (thorough ? 20 : 4); p <= n; ++p) ps.insert(p);
     }
     size_t k = 0;
     for (size_t p : ps) {
@@ -148,7 +153,7 @@ static void mode_wfaults(bool thorough, uint64_t seed, int shard, int nshards, s
     std::vector<GenJob> jobs;
     for (size_t i = 0; i < all.size(); ++i) if (all[i].gcvariant < 0 && !all[i].forced && (int)(i % (size_t)nshards) == shard) jobs.push_back(all[i]);
     iso::run_all(jobs.size(),
-        [&](size_t i) { auto& g = jobs[i]; return g.kind == 't' ? wfault_one<TM>(g, seed) : g.kind == 'h' ? wfault_one<HM>(g, seed) : wfault_one<PM>(g, seed); },
+        [&](size_t i) { auto& g = jobs[i]; return g.kind == 't' ? wfault_one<TM>(g, seed, thorough) : g.kind == 'h' ? wfault_one<HM>(g, seed, thorough) : wfault_one<PM>(g, seed, thorough); },
         [&](size_t i, const iso::Outcome& o) { if (o.cls == "done") os << o.text; else os << "WF " << jobs[i].id << " -1 0 " << o.cls << " 0 0 " << o.text << "\n"; },
         600000, g_errfile);
 }
